@@ -106,6 +106,14 @@ func (a *Agent) Start(p pool.Pool) error {
 	a.started = true
 	a.mu.Unlock()
 
+	// Wait is about the run that starts here. The result of an earlier run
+	// that nobody collected would make a Wait after the next Stop return at
+	// once, while the loop is still winding down (and started still set).
+	select {
+	case <-a.waitCh:
+	default:
+	}
+
 	running := false
 	defer func() {
 		if !running {
